@@ -11,6 +11,12 @@ Engine E1 (smallscope).  Enumerated (see jv/c13_cat.py):
     expressions and statements (for, unpacking, if/while/not/and/or, len, iter, next, ...)
     x query battery (complete, infer, goto, help, get_references, get_signatures, get_names,
     get_context, search ... + result attributes) x {safe, unsafe};
+  * histories (one process, classes mutated between queries): descriptor kind {property,
+    non-data, data descriptor} x placement {class, base, metaclass, base of the metaclass
+    (= inherited metaclass property)} x history {plain attribute replaced by the descriptor,
+    descriptor added under a new name, descriptor replaced by a plain value} x first query
+    {complete `R.`, infer/goto/help `R.att`}: ask, mutate the class, ask everything again with
+    new Interpreters; same oracles on the state after the mutation;
   * container graph: dict/list/tuple nested two deep, instances, SimpleNamespace holding builtin
     values, functions, classes, instances of type()-created classes: every attribute/index
     path up to the tier's length.
@@ -106,6 +112,126 @@ ssub = SSub('ab')
 box = [lsub, tsub, dsub, ssub]
 unk = None
 '''
+
+
+# --------------------------------------------------------------------------------------------
+# histories: the class is changed between two queries of one process
+# --------------------------------------------------------------------------------------------
+HIST_SOURCE = cat.PRELUDE + '''
+
+def make(feature, key):
+    if feature == 'P':
+        def getter(self):
+            _hit('property/' + key)
+            return Leaf()
+        return property(getter)
+    if feature == 'ND':
+        return NDesc('__get__/' + key)
+    return DDesc('__get__/' + key)
+
+
+class MetaBase(type):
+    pass
+
+
+class Meta(MetaBase):
+    pass
+
+
+class Base(metaclass=Meta):
+    baseattr = 2.5
+
+
+class C(Base):
+    plain = 1
+
+    def __init__(self):
+        self.ia = Leaf()
+
+
+obj = C()
+'''
+HIST_FEATURES = ['P', 'ND', 'DD']
+HIST_PLACES = {'cls': 'C', 'base': 'Base', 'meta': 'Meta', 'metabase': 'MetaBase'}
+HIST_KINDS = ['replace', 'add', 'reverse']
+HIST_FIRST = [('complete', '{R}.'), ('infer', '{R}.att'), ('goto', '{R}.att'),
+              ('help', '{R}.att')]
+
+
+def _hist_step3(R):
+    """(query, oracle kind, oracle expression) asked after the mutation, safe mode."""
+    def q(qid, code, method, deep=False):
+        return {'id': qid, 'code': code, 'method': method, 'kw': {}, 'deep': deep, 'head': False}
+    return [(q('complete', R + '.', 'complete', True), 'dir', R),
+            (q('att|complete', R + '.att.', 'complete'), None, None),
+            (q('att|infer', R + '.att', 'infer', True), 'class', R + '.att'),
+            (q('att|goto', R + '.att', 'goto', True), None, None),
+            (q('att|help', R + '.att', 'help', True), None, None),
+            (q('att|v:infer', 'v_ = %s.att\nv_' % R, 'infer'), 'class', R + '.att'),
+            (q('att|sig', R + '.att(', 'get_signatures'), None, None),
+            (q('att|getattr', "getattr(%s, 'att')." % R, 'complete'), None, None),
+            (q('plain|infer', R + '.plain', 'infer'), 'class', R + '.plain')]
+
+
+def _hist_oracle(kind, expr, ns):
+    """The oracle applies to `expr` only while it is a plain path (decided by CPython)."""
+    if kind is None:
+        return None
+    if kind == 'class':
+        root, _dot, name = expr.partition('.')
+        ok, _live = _is_plain_attr(ns[root], name)
+        if not ok:
+            return None
+    return _oracle_for(kind, expr, ns)
+
+
+def _work_hist(task, fails, stats, only):
+    """All histories of one (descriptor kind, placement, variant)."""
+    f, place, variant = task['feature'], task['place'], task['variant']
+    R = 'C' if place in ('meta', 'metabase') else 'obj'
+    key = '%s@%s' % (f, place)
+    n = 0
+    for kind in HIST_KINDS:
+        for method, fmt in HIST_FIRST:
+            hid = 'h:%s:%s' % (kind, method)
+            if only and not only[0].startswith(hid + '|'):
+                continue
+            graph = cat.build(HIST_SOURCE, variant,
+                              os.path.join(boot.scratch_root(), 'c13mods-%d' % os.getpid()))
+            ns = graph.namespace()
+            target = ns[HIST_PLACES[place]]
+            # initial state
+            if kind == 'replace':
+                setattr(target, 'att', 1)
+            elif kind == 'reverse':
+                setattr(target, 'att', ns['make'](f, key))
+            n += 1
+            # step 1: one query while the class is in its first state
+            q1 = {'id': '%s|1' % hid, 'code': fmt.format(R=R), 'method': method, 'kw': {},
+                  'deep': True, 'head': False}
+            okind = {'complete': 'dir', 'infer': 'class'}.get(method)
+            mine = []
+            _check(graph, ns, q1, False, {'att'}, mine, stats,
+                   _hist_oracle(okind, R if okind == 'dir' else R + '.att', ns))
+            # step 2: the user monkeypatches the class
+            if kind in ('replace', 'add'):
+                setattr(target, 'att', ns['make'](f, key))
+            else:
+                setattr(target, 'att', 'live')
+            # step 3: everything again, new Interpreters
+            for unsafe in (False, True):
+                for q, okind, oexpr in _hist_step3(R):
+                    if unsafe and okind is None:
+                        continue
+                    q = dict(q, id='%s|3|%s' % (hid, q['id']))
+                    if only and [q['id'], unsafe] != list(only):
+                        continue
+                    _check(graph, ns, q, unsafe, {'att'}, mine, stats,
+                           _hist_oracle(okind, oexpr, ns))
+            fails += [x for x in mine if not only
+                      or [x['q']['id'], x['unsafe']] == list(only)]
+    stats['histories'] = stats.get('histories', 0) + n
+    return n
 
 
 # --------------------------------------------------------------------------------------------
@@ -629,7 +755,7 @@ def _check(graph, ns, q, unsafe, interesting, fails, stats, oracle=None):
 def _new_stats():
     return {'queries': 0, 'by_method': {}, 'touch_excs': {}, 'other_excs': {}, 'hits_safe': {},
             'hits_unsafe': {}, 'dir_checks': 0, 'class_checks': 0, 'classes': {},
-            'plain_paths': 0}
+            'plain_paths': 0, 'histories': 0}
 
 
 def _graph_for(task):
@@ -672,12 +798,16 @@ def _oracle_for(kind, expr, ns):
 
 def _work(task):
     """All queries of one (graph, variant): safe mode everything, both modes the plain paths."""
-    shape, graph = _graph_for(task)
-    ns = graph.namespace()
-    tier = task['tier']
     fails = []
     stats = _new_stats()
     only = task.get('only')     # replay: a single (query id, unsafe)
+    if task['family'] == 'hist':
+        n = _work_hist(task, fails, stats, only)
+        return {'fails': fails, 'stats': stats, 'nq': n * (1 + len(_hist_step3('obj'))),
+                'npq': 0}
+    shape, graph = _graph_for(task)
+    ns = graph.namespace()
+    tier = task['tier']
     if task['family'] == 'shape':
         roots = [r for r in SHAPE_ROOTS if r[0] in task['roots']]
         qs = shape_queries(shape, tier, roots, full=task['full'], battery=task['battery'],
@@ -760,6 +890,11 @@ def _levels(tier):
     levels.append(('builtin-subclasses x {file,exec}',
                    [{'family': 'sub', 'variant': v, 'tier': tier, 'roots': [r[0]]}
                     for v in fe for r in SUB_ROOTS]))
+    hist_variants = ['exec'] if tier == 'quick' else cat.VARIANTS
+    levels.append(('histories: descriptor kind x placement x {replace,add,reverse} x first query '
+                   'x {%s}' % ','.join(hist_variants),
+                   [{'family': 'hist', 'tier': tier, 'feature': f, 'place': pl, 'variant': v}
+                    for v in hist_variants for f in HIST_FEATURES for pl in HIST_PLACES]))
     side = ['obj', 'C', 'box0', 'box1']
     if tier == 'quick':
         levels.append(('singles x {file,exec}: relevant expressions, battery on heads',
@@ -803,6 +938,8 @@ def _task_id(t):
         return '%s|%s' % (t['shape'], t['variant'])
     if t['family'] == 'sub':
         return 'sub|%s' % t['variant']
+    if t['family'] == 'hist':
+        return 'hist|%s@%s|%s' % (t['feature'], t['place'], t['variant'])
     return 'cont|%s' % t['variant']
 
 
@@ -856,7 +993,7 @@ def run(ctx):
                 'fresh Interpreter with its results touched; distinct_nontrivial = distinct '
                 '(reported name, kind) values confirmed by the infer oracle + distinct query '
                 'methods exercised',
-        'graphs': graphs,
+        'graphs': graphs, 'histories': agg['histories'],
         'levels_completed': done, 'exhaustive': exhaustive, 'samples': samples,
         'queries_by_method': agg['by_method'],
         'dir_oracle_checks': agg['dir_checks'], 'class_oracle_checks': agg['class_checks'],
